@@ -74,3 +74,6 @@ func gvcFreshSlice[T any](s []T) bool { panic("ghost") }
 // not context.Background(), i.e. timeoutLoop will close the connection when that
 // context ends (what bounds a blocked transport operation).
 func gvcIsArmed(ch any) bool { panic("ghost") }
+
+// gvcMapHas(m, k): k is present in map m.
+func gvcMapHas[K comparable, V any](m map[K]V, k K) bool { _, ok := m[k]; return ok }
